@@ -353,6 +353,19 @@ def concrete_suite(ctx):
         oks.append(abs(got_len - true_len) <= 0.06 * true_len)
     ctx.check(far >= 6, 'harness: enough segments far from the vertices of the bent path')
     ctx.check(all(oks), 'metre distances: away from the path vertices every segment is as long as its piece of the path (geodesic, within 6 percent)')
+    # a long path through a fine grid: more than a thousand cells, each named once, in order
+    nlong = 1200
+    dsl = builders.cf1d(2, nlong, lat=numpy.array([10.0, 10.5]), lon=100.0 + numpy.arange(nlong) * 0.01,
+                        data_vars={'temp': (('k', 'y', 'x'), numpy.arange(2 * 2 * nlong, dtype=float).reshape(2, 2, nlong))})
+    dsl = dsl.assign_coords(zc=(('k',), numpy.array([1.0, 3.0]), {'positive': 'down', 'long_name': 'depth', 'units': 'm'}))
+    trl = T.Transect(dsl, shapely.LineString([(99.9, 10.1), (100.0 + nlong * 0.01 + 0.1, 10.1)]), depth='zc')
+    segl = trl.segments
+    pl = dsl.ems.polygons
+    ctx.check([int(sg.linear_index) for sg in segl] == list(range(nlong)), 'segments are listed by increasing distance from the start (a path through 1200 cells)')
+    ctx.check(all(sg.polygon is pl[int(sg.linear_index)] for sg in segl), "a segment names the linear index, native index and polygon of its cell")
+    prep = trl.prepare_data_array_for_transect(dsl['temp'])
+    ctx.check(prep.shape == (2, len(segl)) and bool((prep.values[0] == numpy.arange(nlong)[:len(segl)]).all()),
+              "prepared data holds, for each segment, the values of that segment's cell at every depth")
     # a path whose vertices carry heights (a LineString with z values): the transect is about where the path runs on the map
     flat_line = shapely.LineString(lines1[1])
     high_line = shapely.LineString([(x, y, z) for (x, y), z in zip(lines1[1], (0.0, 5000.0, -300.0))])
